@@ -138,6 +138,12 @@ def prop(line, impl, model):
         m, t = map(int, impl.split(" "))
         if t > n:
             return "chunk sized by MaxDataForSize(%d)=%d occupies %d bytes" % (n, m, t)
+    elif op == "decx":
+        if a[2][0] == "x":
+            chunks, err = py_decode(a[2][1:])
+            want = "chunks=" + (",".join("x" + c for c in chunks) or "-") + " err=" + ("toolong" if err == "toolong" else "io")
+            if impl != want:
+                return "failing reader: expected %s, decoder gave %s" % (want[:120], impl[:120])
     elif op == "dec":
         if "err=other" in impl:
             return "decoder returned an error outside {EOF, UnexpectedEOF, TooLong}: " + impl[-80:]
@@ -157,6 +163,8 @@ def key_of(line, impl, model):
         return "alloc-exceeds-announced"
     if a[1] == "pc":
         return "packetconn"
+    if a[1] == "decx":
+        return "reader-error-passthrough"
     if a[1] in ("rt", "dec", "alloc", "allocd"):
         sc = a[3]
         zero = any(x.rstrip("E") == "0" for x in sc.split(",")) if sc != "-" else False
@@ -209,6 +217,15 @@ def gen(ctx):
         n = rng.randrange(0, 12)
         s = [rng.choice([0x00, 0x01, 0x3f, 0x40, 0x41, 0x7f, 0x80, 0x81, 0xbf, 0xc0, 0xc1, 0xff, rng.randrange(256)]) for _ in range(n)]
         add("dec x%s %s" % ("".join("%02x" % b for b in s), rand_script(rng, 8)), "dec-random")
+    # the same kind of streams over a reader that fails instead of reporting EOF
+    for i in range(150 if not thorough else 1500):
+        n = rng.randrange(0, 12)
+        s = [rng.choice([0x00, 0x01, 0x3f, 0x40, 0x41, 0x7f, 0x80, 0x81, 0x82, 0xbf, 0xc0, 0xc1, 0xff, rng.randrange(256)]) for _ in range(n)]
+        add("decx x%s %s" % ("".join("%02x" % b for b in s), rand_script(rng, 8)), "decx-random")
+    for sc in ("-", "1", "1,0,1", "4E", "1,3E", "0,0,9E"):
+        add("decx x81418242 %s" % sc, "decx-directed")
+        add("decx x8141c0 %s" % sc, "decx-directed")
+        add("decx x c08080 %s".replace("x c", "xc") % sc, "decx-directed")
     # non-minimal prefixes of small values followed by the body
     for v in [0, 1, 4, 63, 64, 100]:
         body = "ab" * v
